@@ -350,7 +350,7 @@ class C11(Prop):
                    "its own kind",
                    "is_unique is read as: valid and exactly one top-rooted path ends in the reference's last "
                    "instance"]
-    runs = {"quick": 2500, "thorough": 60000}
+    runs = {"quick": 6000, "thorough": 150000}
 
     def configure(self, rng, tier):
         cfg = hier_config(rng)
